@@ -44,8 +44,10 @@ func jmpToOriginFunctionValue(from, to uintptr) (value []byte) {
 		}
 	}
 
+	// to 是代码地址(不是函数值), 不能用 movabs rdx,to; jmp [rdx](会跳到 to 处存放的 8 个字节所表示的地址, 并且破坏 rdx):
+	// 使用 jmp [rip+0], 目标地址作为 8 字节字面量紧跟在指令之后, 不改变任何寄存器
 	return []byte{
-		0x48, 0xBA,
+		0xFF, 0x25, 0x00, 0x00, 0x00, 0x00, // jmp QWORD PTR [rip+0]
 		byte(to),
 		byte(to >> 8),
 		byte(to >> 16),
@@ -53,8 +55,7 @@ func jmpToOriginFunctionValue(from, to uintptr) (value []byte) {
 		byte(to >> 32),
 		byte(to >> 40),
 		byte(to >> 48),
-		byte(to >> 56), // movabs rdx,to
-		0xFF, 0x22,     // jmp QWORD PTR [rdx]
+		byte(to >> 56), // .quad to
 	}
 }
 
